@@ -315,7 +315,7 @@ def gen_cases(ctx):
     for _ in range(ctx.scale(40, 600)):
         k = rng.randrange(ncfg)
         unit = rng.choice([b'/.', b'//', b'/a/..', b'/%2e', b'/zz/%2e%2e', b'/d/sub/../..'])
-        reps = rng.choice([10, 100, 400, 1000])
+        reps = rng.choice([10, 100, 400, 1000] if ctx.quick() else [10, 100, 400, 1000, 2500])   # up to ~30 KB; the HTTP header limit is below 64 KB
         tail = rng.choice([b'/f.txt', b'/d/e.txt', b'/../out/OUTSIDE_secret.txt', b'/al/a.txt', b'/', b'/d'])
         cases.append('rq %d %s' % (k, hexs(unit * reps + tail)))
     return cases
